@@ -7,6 +7,7 @@ var checks = map[string][]HarnessSpec{
 	"C15": {
 		{Name: "HarnessC15Node", Pkg: "leaf", Quick: map[string]int{"N": 4}, Thorough: map[string]int{"N": 6}},
 		{Name: "HarnessC15Predicate", Pkg: "leaf", Quick: map[string]int{"N": 4}, Thorough: map[string]int{"N": 6}},
+		{Name: "HarnessC15PredicateTemplate", Pkg: "leaf", Quick: map[string]int{"ID": 3, "A": 1}, Thorough: map[string]int{"ID": 5, "A": 2}},
 		{Name: "HarnessC15Literal", Pkg: "leaf", Quick: map[string]int{"N": 4}, Thorough: map[string]int{"N": 6}},
 		{Name: "HarnessC15LiteralTyped", Pkg: "leaf", Quick: map[string]int{"N": 2}, Thorough: map[string]int{"N": 4}},
 		{Name: "HarnessC15Object", Pkg: "leaf", Quick: map[string]int{"N": 4}, Thorough: map[string]int{"N": 5}},
